@@ -295,66 +295,73 @@ func run(r *core.Run) {
 		return true
 	})
 
-	// P1: D1, every op, every digit count / radix, both routes
-	phase("D1_format", func() bool {
-		ok := r.Parallel(1<<16, 16, func(w int, lo, hi int64) {
-			e := rn.env(w)
-			var fs []fail
-			for h := lo; h < hi; h++ {
-				x := half(uint16(h))
-				rn.formatAll(e, x, true, r.Thorough() || h < 1<<15, &fs)
-				if r.WantSample(h) {
-					rn.sample(map[string]interface{}{"domain": "D1", "binary16": fmt.Sprintf("%04x", h), "x": nm.ToString(x), "ops": "String,toExponential(),toFixed(0..100),toExponential(0..100),toPrecision(1..100),toString(2..36) via ftoa and runtime"})
+	// The phases run in two passes: first a small bound of every mechanism, then the large bounds. The small and
+	// the large phase of a domain partition it (nothing is evaluated twice), so a run that is cut by the deadline
+	// has still crossed every conversion route on a complete smaller domain.
+
+	d1 := func(name, what string, sel func(h int64) bool) {
+		phase(name, func() bool {
+			ok := r.Parallel(1<<16, 16, func(w int, lo, hi int64) {
+				e := rn.env(w)
+				var fs []fail
+				for h := lo; h < hi; h++ {
+					if !sel(h) {
+						continue
+					}
+					x := half(uint16(h))
+					rn.formatAll(e, x, true, r.Thorough() || h < 1<<15, &fs)
+					if r.WantSample(h) {
+						rn.sample(map[string]interface{}{"domain": "D1", "binary16": fmt.Sprintf("%04x", h), "x": nm.ToString(x), "ops": "String,toExponential(),toFixed(0..100),toExponential(0..100),toPrecision(1..100),toString(2..36) via ftoa and runtime"})
+					}
 				}
+				rn.report(fs)
+			})
+			if ok {
+				ops := "337 (op,arg) x 2 routes"
+				if r.Quick() {
+					ops = "337 (op,arg) x 2 routes for the non-negative ones, (String, toExponential(), radix 2..36, digit counts {0,1,2,3,4,5,7,10,14..18,20,21,22,25,50,99,100}) x 2 routes for the negative ones"
+				}
+				rn.setBound(name, what+" x "+ops)
 			}
-			rn.report(fs)
+			return ok
 		})
-		if ok {
-			if r.Thorough() {
-				rn.setBound("D1_format", "all 65536 binary16 values x 337 (op,arg) x 2 routes")
-			} else {
-				rn.setBound("D1_format", "all 32768 non-negative binary16 values x 337 (op,arg) x 2 routes; all 32768 negative ones x (String, toExponential(), radix 2..36, digit counts {0,1,2,3,4,5,7,10,14..18,20,21,22,25,50,99,100}) x 2 routes")
-			}
-		}
-		return ok
-	})
-
-	// P2: every text over the full alphabet up to a length
-	phase("texts_full_alphabet", func() bool { return rn.texts("full", alphaFull, 1, r.Pick(5, 6)) })
-
-	// P3: D4
+	}
 	d4 := buildD4(rn.d4opts())
 	r.Set("D4_size", len(d4))
-	phase("D4_format", func() bool {
-		ok := r.Parallel(int64(len(d4)), 8, func(w int, lo, hi int64) {
-			e := rn.env(w)
-			var fs []fail
-			for i := lo; i < hi; i++ {
-				rn.formatAll(e, d4[i], true, true, &fs)
-				if r.WantSample(i) {
-					rn.sample(map[string]interface{}{"domain": "D4", "bits": bitsHex(d4[i]), "x": nm.ToString(d4[i])})
+	centres := map[uint64]bool{}
+	for _, x := range buildD4(d4opts{noSeeds: true}) {
+		centres[math.Float64bits(x)] = true
+	}
+	d4phase := func(name, what string, sel func(x float64) bool) {
+		phase(name, func() bool {
+			var n atomic.Int64
+			ok := r.Parallel(int64(len(d4)), 8, func(w int, lo, hi int64) {
+				e := rn.env(w)
+				var fs []fail
+				for i := lo; i < hi; i++ {
+					if !sel(d4[i]) {
+						continue
+					}
+					n.Add(1)
+					rn.formatAll(e, d4[i], true, true, &fs)
+					if r.WantSample(i) {
+						rn.sample(map[string]interface{}{"domain": "D4", "bits": bitsHex(d4[i]), "x": nm.ToString(d4[i])})
+					}
 				}
+				rn.report(fs)
+			})
+			if ok {
+				rn.setBound(name, fmt.Sprintf("%s: %d doubles x 337 (op,arg) x 2 routes", what, n.Load()))
 			}
-			rn.report(fs)
+			return ok
 		})
-		if ok {
-			rn.setBound("D4_format", fmt.Sprintf("%d doubles (opts %+v) x 337 (op,arg) x 2 routes", len(d4), rn.d4opts()))
-		}
-		return ok
-	})
+	}
 	d4set := make(map[uint64]struct{}, len(d4))
 	for _, x := range d4 {
 		d4set[math.Float64bits(x)] = struct{}{}
 	}
-
-	// P4: D2, shortest digits (both routes) + Number(String(x)), prefix/suffix width increasing
-	widths := []int{4, 6, 8}
-	if r.Thorough() {
-		widths = []int{4, 6, 8, 10, 12}
-	}
 	prevW := 0
-	for _, b := range widths {
-		b := b
+	d2 := func(b int) {
 		pw := prevW
 		phase(fmt.Sprintf("D2_shortest_b%d", b), func() bool {
 			pats := d2Patterns(b)
@@ -392,7 +399,13 @@ func run(r *core.Run) {
 		prevW = b
 	}
 
-	// P5: texts derived from every x of D1 u D4 (quick: from the 1-5-5 minifloat subset of D1 and the centres 10^k, 2^k)
+	// ---- pass 1: small bounds
+	d1("D1a_format", "the 2048 binary16 values whose 5 low mantissa bits are zero (1-5-5 minifloat, both signs, incl. +-0, +-Inf)", func(h int64) bool { return h&31 == 0 })
+	phase("texts_full_alphabet_a", func() bool { return rn.texts("full", alphaFull, 1, 4) })
+	d4phase("D4a_format", "the doubles nearest to 10^k (k=-323..308) and equal to 2^k (k=-1074..1023), max double, 1e21, 1e-6, 1e-7", func(x float64) bool { return centres[math.Float64bits(x)] })
+	d2(4)
+	phase("parseInt_radix", func() bool { return rn.parseIntPhase(d4) })
+	// texts derived from x (quick: from the 1-5-5 minifloat subset of D1 and the centres 10^k, 2^k)
 	phase("derived_texts_D1", func() bool {
 		step := int64(r.Pick(32, 1)) // quick: mantissa restricted to its 5 leading bits
 		ok := r.Parallel((1<<15)/step, 16, func(w int, lo, hi int64) {
@@ -415,9 +428,9 @@ func run(r *core.Run) {
 	})
 	// quick: the centres 10^k, 2^k only; thorough: the quick tier's D4 (the full thorough D4 x ~230 texts of up to
 	// 1100 digits would take most of the budget for a route that is backed by strconv)
-	dd := buildD4(d4opts{ulps: 1, exhK: 1, expLo: -330, expHi: 300, expStep: 100, dense: 5, extra: []int{-323, -308, -20, 21, 22, 290, 307}, few: true})
-	if r.Quick() {
-		dd = buildD4(d4opts{ulps: 0, exhK: 0, expLo: 1, expHi: 0, noSeeds: true})
+	dd := buildD4(d4opts{noSeeds: true})
+	if r.Thorough() {
+		dd = buildD4(quickD4)
 	}
 	phase("derived_texts_D4", func() bool {
 		ok := r.Parallel(int64(len(dd)), 16, func(w int, lo, hi int64) {
@@ -435,13 +448,19 @@ func run(r *core.Run) {
 		return ok
 	})
 
-	// P6: integers in every radix through parseInt
-	phase("parseInt_radix", func() bool { return rn.parseIntPhase(d4) })
-
-	// P7: texts over the reduced alphabet, longer
+	// ---- pass 2: large bounds
+	d1("D1b_format", "the other 63488 binary16 values (incl. NaN)", func(h int64) bool { return h&31 != 0 })
+	phase("texts_full_alphabet_b", func() bool { return rn.texts("full", alphaFull, 5, r.Pick(5, 6)) })
+	d4phase("D4b_format", fmt.Sprintf("the rest of D4 (+-%d ulp neighbours of the centres; +-%d ulp of nearest((s+1/2)*10^e), opts %+v)", rn.d4opts().ulps, rn.d4opts().ulps, rn.d4opts()), func(x float64) bool { return !centres[math.Float64bits(x)] })
+	d2(6)
+	d2(8)
+	if r.Thorough() {
+		d2(10)
+		d2(12)
+	}
 	phase("texts_reduced_alphabet", func() bool { return rn.texts("reduced", alphaReduced, r.Pick(6, 7), r.Pick(7, 8)) })
 
-	// P8 (thorough): D3 = binary32 values widened, shortest digits via ftoa, by index range
+	// thorough: D3 = binary32 values widened, shortest digits via ftoa, by index range
 	if r.Thorough() {
 		phase("D3_binary32", func() bool { return rn.d3(d4set) })
 	}
@@ -457,11 +476,13 @@ func run(r *core.Run) {
 	r.Exhaustive(complete)
 }
 
+var quickD4 = d4opts{ulps: 1, exhK: 1, expLo: -330, expHi: 300, expStep: 100, dense: 5, extra: []int{-323, -308, -20, 21, 22, 290, 307}, few: true}
+
 func (rn *runner) d4opts() d4opts {
 	if rn.r.Thorough() {
 		return d4opts{ulps: 4, exhK: 2, expLo: -340, expHi: 310, expStep: 20, dense: 25, extra: []int{-323, -308, 290, 307}}
 	}
-	return d4opts{ulps: 1, exhK: 1, expLo: -330, expHi: 300, expStep: 100, dense: 5, extra: []int{-323, -308, -20, 21, 22, 290, 307}, few: true}
+	return quickD4
 }
 
 func (rn *runner) lens() []int {
@@ -528,6 +549,10 @@ func ipow(b, n int) int64 {
 }
 
 func (rn *runner) texts(name, alpha string, from, to int) bool {
+	boundFrom := from
+	if name == "full" {
+		boundFrom = 1 // the second full-alphabet phase continues the first
+	}
 	r := rn.r
 	for l := from; l <= to; l++ {
 		n := ipow(len(alpha), l)
@@ -570,7 +595,7 @@ func (rn *runner) texts(name, alpha string, from, to int) bool {
 		if !ok {
 			return false
 		}
-		rn.setBound("texts_"+name, fmt.Sprintf("every string of length %d..%d over %q (full alphabet phases start at 1)", from, l, alpha))
+		rn.setBound("texts_"+name, fmt.Sprintf("every string of length %d..%d over %q", boundFrom, l, alpha))
 	}
 	return true
 }
